@@ -663,7 +663,17 @@ def main():
                                 "harness/tzdays.py + zoneinfo tz database",
                                 "pandas semantics re-specified in Model/HourlyPrep.v",
                                 "Coq.Floats.FloatOps.Prim2SF (reads the binary64 literals of the cases files exactly)"]
-    run.check_proofs("Properties/C17.v", ["Proofs/HourlyPrepProofs.v"])
+    # step 0: the structure of the source (step order, zero rule, keep=, hours, threshold, fall-back order, flag rule) as a table
+    import translate_hourlyprep
+    tab, why = translate_hourlyprep.generate(run)
+    run.cov["structural_tie"] = ({"established": True, "table": tab} if tab is not None else
+                                 {"established": False, "reason": "construct not recognised by harness/translate_hourlyprep.py: " + why,
+                                  "fallback": "behavioural correspondence and oracle only"})
+    run.log("structure of the source: %s" % ("read" if tab is not None else "NOT recognised (%s); behavioural tie only" % why))
+    run.cov["trusted_base"] += ["harness/translate_hourlyprep.py (ast reading of _set_data / _get_contiguous_datetime / remove_duplicates / "
+                                "interpolate into Generated/HourlyPrepGen.v; an unrecognised construct yields no table, never a guessed one)"]
+    run.check_proofs("Properties/C17.v", ["Proofs/HourlyPrepProofs.v", "Proofs/HourlyPrepTableProofs.v", "Proofs/HourlyPrepGenProofs.v"],
+                     generated=["Generated/HourlyPrepGen.v"])
     run.log("theorems checked: %s" % run.proof_ok)
     if not models_fresh():
         run.ensure_models(["Model/HourlyPrepRun.v", "Model/CasesLib.v"])
